@@ -187,3 +187,11 @@ _add("C18", "payload bytes are not shared between deliveries (a handler keeping 
 _add("C20", "the recycler never puts a tracked (possibly recovered) node back to not-recovered.")
 _add("C12", "outside the constructors the retry deadline is written only as the arming step of a transition to Open.")
 _add("C03", "a transition that arms the retry deadline before its CAS to Open is called only where a state read established the source state; the deadline is written nowhere else.")
+_add("C10", "the wait handed to an admitted caller is computed from the result of the atomic add that reserved that caller's own slot (not from an estimate read before the reservation).")
+_add("C20", "the recycler removes a node's breaker inside the critical section in which it read the node's status as not recovered.")
+_add("C12", "the loaded retry deadline does not enter an unguarded unsigned subtraction (a wrapped difference is never read as 'deadline passed').")
+_add("C03", "the loaded retry deadline is compared with the clock directly (no unguarded unsigned subtraction).")
+_add("C13", "the cached last input (currentRules) is written only on executions that also install the enforced rules, so a rejected load cannot make a later load look like a repeat.")
+_add("C14", "the cached last input is written only together with the enforced maps (the 'unchanged' short-circuit compares against what is enforced).")
+_add("C05", "a throttled value admitted without waiting leaves its last-pass cell at the clock reading (idle time is not banked as credit).")
+_add("C11", "no write leaves a negative token balance in the warm-up calculator's storedTokens (published values are constants >= 0, the refill result or guarded differences; an in-place subtraction is followed by a reset to 0 on the negative branch).")
